@@ -8,6 +8,7 @@ import (
 	"fmt"
 	"go/token"
 	"go/types"
+	"os"
 	"strings"
 
 	"golang.org/x/tools/go/ssa"
@@ -207,54 +208,79 @@ func (c *Check) capabilityCodec(rule string) {
 	}
 	// capabilityOptionalParam.decode: Capability{Code: cursor[0], Value: cursor[2:2+l]}
 	if fn := p.Fn("capabilityOptionalParam.decode"); fn != nil {
-		a := NewAnalysis(p, fn)
-		a.Run()
 		n := 0
-		for _, cl := range p.callsIn(fn, descIs("builtin:append")) {
-			for _, st := range a.At[cl.(ssa.Instruction)] {
-				args := a.argExprs(st, nil, cl.Common())
-				el := args[1]
-				if el.Op == "append1" {
-					continue
-				}
-				_ = el
+		// two cases on the capability's length octet (cursor[1]): with a
+		// value, and without one; each is decided on its own so that the value
+		// reaching the append is the one built for that case
+		isLenOctet := func(e *Expr) bool {
+			if e.Op != "ld" || e.Args[0].Op != "ia" {
+				return false
 			}
-			for _, st := range a.At[cl.(ssa.Instruction)] {
-				n++
-				args := a.argExprs(st, nil, cl.Common())
-				if args[0].Op == "append1" || len(args) < 2 {
-					continue
+			iv, isC := e.Args[0].Args[1].IsConst()
+			return isC && iv == 1 && e.Args[0].Args[0].Op == "phi"
+		}
+		for _, withValue := range []bool{true, false} {
+			a := NewAnalysis(p, fn)
+			if withValue {
+				// the length octet of a capability that fits: at most
+				// len(b)-2, with len(b) bounded by the checked premise on
+				// the callers (the block comes from a one-octet-length field)
+				maxLen := int64(255)
+				if r, has := p.entryLenFacts(fn, map[*ssa.Function]*Analysis{})[1]; has && !r.Empty() && r.Hi() != posInf && r.Hi()-2 < maxLen {
+					maxLen = r.Hi() - 2
 				}
-				// the appended element(s)
-				var elems []*Expr
-				if es, ok := a.variadicElems(st, args[1]); ok {
-					elems = es
-				}
-				ok := len(elems) == 1 && elems[0].Op == "struct"
-				if ok {
-					code := mkField(elems[0], "Code", 0, nil)
-					val := mkField(elems[0], "Value", 1, nil)
-					ok = code.Op == "ld" && strings.Contains(code.Key, "ia(phi:") && strings.HasSuffix(code.Args[0].Key, "const:0)")
-					// value: cursor[2:2+l] when l > 0, an empty slice otherwise
-					r, lo, hi := sliceParts(val)
-					if r.Op == "phi" && lo != nil && hi != nil {
-						l := st.linOf(hi).add(st.linOf(lo), -1)
-						okL := len(l.T) == 1 && l.C == 0
-						for k, coef := range l.T {
-							if coef != 1 || !strings.Contains(k, "const:1)") {
-								okL = false
-							}
-						}
-						lv, isC := lo.IsConst()
-						ok = ok && okL && isC && lv == 2
-					} else if !(r.Op == "arr" && r.C == 0) && r.Op != "phi" {
-						ok = false
+				a.AtomHook = rangeHook(isLenOctet, isRange(1, maxLen))
+			} else {
+				a.AtomHook = rangeHook(isLenOctet, isConst(0))
+			}
+			a.Run()
+			for _, cl := range p.callsIn(fn, descIs("builtin:append")) {
+				for _, st := range a.At[cl.(ssa.Instruction)] {
+					n++
+					args := a.argExprs(st, nil, cl.Common())
+					if args[0].Op == "append1" || len(args) < 2 {
+						continue
 					}
+					// the appended element(s)
+					var elems []*Expr
+					if es, ok := a.variadicElems(st, args[1]); ok {
+						elems = es
+					}
+					ok := len(elems) == 1 && elems[0].Op == "struct"
+					if ok {
+						code := mkField(elems[0], "Code", 0, nil)
+						val := mkField(elems[0], "Value", 1, nil)
+						ok = code.Op == "ld" && strings.Contains(code.Key, "ia(phi:") && strings.HasSuffix(code.Args[0].Key, "const:0)")
+						// value: cursor[2:2+l] when l > 0, an empty slice otherwise
+						r, lo, hi := sliceParts(val)
+						if os.Getenv("CBGP_DEBUG") != "" {
+							fmt.Printf("DEBUG capdecode withValue=%v val=%s code=%s\n", withValue, trunc(val.Key, 300), code.Key)
+						}
+						switch {
+						case withValue:
+							okL := false
+							if r.Op == "phi" && lo != nil && hi != nil {
+								l := st.linOf(hi).add(st.linOf(lo), -1)
+								okL = len(l.T) == 1 && l.C == 0
+								for k, coef := range l.T {
+									if coef != 1 || !isLenOctet(l.E[k]) || l.E[k].Args[0].Args[0].Key != r.Key {
+										okL = false
+									}
+								}
+								lv, isC := lo.IsConst()
+								okL = okL && isC && lv == 2 && code.Args[0].Args[0].Key == r.Key
+							}
+							ok = ok && okL
+						default:
+							z, isZ := st.rangeOf(mkLen(val)).IsConst()
+							ok = ok && isZ && z == 0
+						}
+					}
+					c.require(ok, rule, "capabilityOptionalParam.decode", fmt.Sprintf("decoded capability (with value=%v)", withValue), p.InstrPos(cl.(ssa.Instruction)), "Capability{Code: cursor[0], Value: cursor[2:2+len]} (empty for len 0) appended in wire order")
 				}
-				c.require(ok, rule, "capabilityOptionalParam.decode", "decoded capability", p.InstrPos(cl.(ssa.Instruction)), "Capability{Code: cursor[0], Value: cursor[2:2+len]} appended in wire order")
 			}
 		}
-		c.floor(rule, n, 1, "capability appends in the decoder")
+		c.floor(rule, n, 2, "capability appends in the decoder")
 	}
 }
 
@@ -441,7 +467,49 @@ func (c *Check) capabilityHelpers(rule string) {
 		}
 		apps := p.callsIn(fn, descIs("builtin:append"))
 		encs := p.callsIn(fn, descIs("AddPathTuple.Encode"))
-		ok = ok && len(apps) == 1 && inLoop(apps[0].Block()) && len(encs) == 1
+		appendForm := len(apps) == 1 && inLoop(apps[0].Block()) && len(encs) == 1
+		ok = ok && (appendForm || (len(apps) == 0 && p.inPlaceEncodeLoop(fn, 4)))
+		// the Value handed out is that buffer, whole
+		valOK := false
+		ownInstrs(fn, func(in ssa.Instruction) {
+			st, isS := in.(*ssa.Store)
+			if !isS {
+				return
+			}
+			fa, isF := st.Addr.(*ssa.FieldAddr)
+			if !isF || structFieldName(fa) != "Value" {
+				return
+			}
+			seen := map[ssa.Value]bool{}
+			var walk func(v ssa.Value) bool
+			walk = func(v ssa.Value) bool {
+				if seen[v] {
+					return true
+				}
+				seen[v] = true
+				switch x := v.(type) {
+				case *ssa.Phi:
+					for _, e := range x.Edges {
+						if !walk(e) {
+							return false
+						}
+					}
+					return true
+				case *ssa.Call:
+					if b, isB := x.Call.Value.(*ssa.Builtin); isB && b.Name() == "append" {
+						return walk(x.Call.Args[0])
+					}
+					return false
+				case *ssa.MakeSlice:
+					return true
+				case *ssa.Const:
+					return x.IsNil()
+				}
+				return false
+			}
+			valOK = walk(st.Val)
+		})
+		ok = ok && valOK
 		c.require(ok, rule, "NewAddPathCapability", "code 69, tuples concatenated in order", p.Pos(fn.Pos()), "Capability{Code: 69, Value: Encode(t1) ++ Encode(t2) ++ …}")
 	}
 }
@@ -739,6 +807,116 @@ func inPlaceElementLoop(fn *ssa.Function, step int64) bool {
 			for _, rr := range *m.Referrers() {
 				if sl, ok := rr.(*ssa.Slice); ok && sl.X == input && sl.Low == ssa.Value(m) {
 					found = true
+				}
+			}
+		}
+	})
+	return found
+}
+
+// inPlaceEncodeLoop recognises the in-place form of a fixed-stride list
+// encoder: the buffer is allocated with step*len(input) octets, the loop index
+// runs over the whole input, and on every iteration element i is encoded into
+// buffer[step*i:] -- by the element encoder's own writer (a helper that
+// AddPathTuple.Encode itself consists of), or by copying Encode()'s result.
+func (p *Prog) inPlaceEncodeLoop(fn *ssa.Function, step int64) bool {
+	if len(fn.Params) != 1 {
+		return false
+	}
+	input := ssa.Value(fn.Params[0])
+	isLenOfInput := func(v ssa.Value) bool {
+		cl, ok := v.(*ssa.Call)
+		if !ok {
+			return false
+		}
+		b, isB := cl.Call.Value.(*ssa.Builtin)
+		return isB && b.Name() == "len" && cl.Call.Args[0] == input
+	}
+	timesStep := func(v ssa.Value, of func(ssa.Value) bool) bool {
+		m, ok := v.(*ssa.BinOp)
+		if !ok || m.Op != token.MUL {
+			return false
+		}
+		for _, pr := range [][2]ssa.Value{{m.X, m.Y}, {m.Y, m.X}} {
+			if c, isC := pr[0].(*ssa.Const); isC && c.Value != nil && c.Int64() == step && of(pr[1]) {
+				return true
+			}
+		}
+		return false
+	}
+	// the element encoder's writers: helpers of AddPathTuple.Encode
+	writers := map[*ssa.Function]bool{}
+	if enc := p.Funcs["AddPathTuple.Encode"]; enc != nil {
+		for _, g := range deepFuncs(enc) {
+			if g != enc {
+				writers[g] = true
+			}
+		}
+	}
+	found := false
+	ownInstrs(fn, func(in ssa.Instruction) {
+		ms, ok := in.(*ssa.MakeSlice)
+		if !ok || !timesStep(ms.Len, isLenOfInput) {
+			return
+		}
+		// destination slices buffer[step*i:] with i spanning the input
+		for _, r := range *ms.Referrers() {
+			sl, ok := r.(*ssa.Slice)
+			if !ok || sl.X != ssa.Value(ms) || sl.Low == nil || !inLoop(sl.Block()) {
+				continue
+			}
+			var idx ssa.Value
+			if !timesStep(sl.Low, func(v ssa.Value) bool { idx = v; return true }) {
+				continue
+			}
+			lo, hi, head, okSpan := loopSpanOver(idx, input)
+			if !okSpan || lo != 0 || !hi {
+				continue
+			}
+			// on every iteration
+			every := true
+			for _, pr := range head.Preds {
+				if head.Dominates(pr) && !sl.Block().Dominates(pr) {
+					every = false
+				}
+			}
+			if !every {
+				continue
+			}
+			// element i of the input is what gets encoded there
+			isElem := func(v ssa.Value) bool {
+				if ia, ok := v.(*ssa.IndexAddr); ok {
+					return ia.X == input && ia.Index == idx
+				}
+				if al, ok := v.(*ssa.Alloc); ok {
+					// a per-iteration copy of element i
+					n, good := 0, false
+					for _, rr := range *al.Referrers() {
+						if st, ok := rr.(*ssa.Store); ok && st.Addr == ssa.Value(al) {
+							n++
+							if ld, ok := st.Val.(*ssa.UnOp); ok {
+								if ia, ok := ld.X.(*ssa.IndexAddr); ok && ia.X == input && ia.Index == idx {
+									good = true
+								}
+							}
+						}
+					}
+					return n == 1 && good
+				}
+				return false
+			}
+			for _, u := range *sl.Referrers() {
+				cl, ok := u.(*ssa.Call)
+				if !ok {
+					continue
+				}
+				if h := p.staticLocalCallee(cl); h != nil && writers[h] && len(cl.Call.Args) == 2 && isElem(cl.Call.Args[0]) && cl.Call.Args[1] == ssa.Value(sl) {
+					found = true
+				}
+				if b, isB := cl.Call.Value.(*ssa.Builtin); isB && b.Name() == "copy" && cl.Call.Args[0] == ssa.Value(sl) {
+					if src, ok := cl.Call.Args[1].(*ssa.Call); ok && p.calleeDesc(src) == "AddPathTuple.Encode" && len(src.Call.Args) == 1 && isElem(src.Call.Args[0]) {
+						found = true
+					}
 				}
 			}
 		}
